@@ -79,6 +79,8 @@ use types::{CollectTypesMetadata, CollectTypesMetadataContext, LogId, TypeMetada
 
 pub use semantic_analysis::namespace::{self, Namespace};
 pub mod types;
+#[cfg(fuellabs_sway_verif)]
+pub(crate) mod verif_hooks;
 
 pub use has_changes::HasChanges;
 use sway_error::error::{CompileError, TrivialCheckDiagType};
